@@ -409,6 +409,20 @@ package simpledb
 // log and the table stack after the last memstore was handed to the flusher.
 
 // tables are loaded oldest first (sorted directory names = generation order), each one that is listed is loaded or the Open fails
+// The directory walk of reconstructSSTables, per entry: a walk error is passed on; a leftover flush directory is noted for
+// removal and skipped - that directory only, the walk goes on (the tables sort behind it); a table directory is collected;
+// everything else is stepped over.
+//@ func reconstructSSTables$1
+//@   props C10 C01 C02
+//@   requires info != nil || err != nil
+//@   requires [plausible-lists] len(tablePaths) < 4611686018427387904 && len(unfinishedFlushes) < 4611686018427387904
+//@   ensures [C10:walk-error-passed-on] err != nil ==> r0 == err
+//@   ensures [C10,C02:only-the-leftover-is-skipped] err == nil ==> r0 == nil || r0 == filepath.SkipDir
+//@   exit [C10,C01:a-table-directory-is-collected] err == nil && r0 == nil && callres(FileInfo.IsDir, 1, 0) && callres(strings.HasPrefix, 1, 0) ==>
+//@        len(tablePaths) == old(len(tablePaths)) + 1 && tablePaths[len(tablePaths) - 1] == path
+//@   exit [C10,C02:a-leftover-flush-is-noted-for-removal] err == nil && r0 == filepath.SkipDir ==> len(unfinishedFlushes) == old(len(unfinishedFlushes)) + 1 &&
+//@        unfinishedFlushes[len(unfinishedFlushes) - 1] == path && len(tablePaths) == old(len(tablePaths))
+
 //@ func (*DB).reconstructSSTables
 //@   assumed
 //@   // (only the modifies clause is an assumption - its frame proof over Walk's allocations does not terminate in time;
